@@ -27,8 +27,10 @@ RULES = {
     'R10': 'signal_del purges queued deliveries at every priority (they are queued at the priority the registration had then, which signal_mod can change), or the priority cannot change while deliveries are queued',
     'R11': 'an entry is findable by descriptor number only while it stands for a registration: a refused add leaves the slot without a number and check (as an emptied slot), and a successful add retires an entry that is being dispatched right now under the same number (the descriptor was closed and its number reused inside its own callback)',
     'R12': 'every signal number qb_loop_signal_add accepts can get the library\'s handler: the installation loop covers all numbers below NSIG',
+    'R13': 'a descriptor whose callback asks to be removed (negative return) leaves the polling driver as well: on that edge the driver\'s del is called (unless the callback has deleted the entry itself) before the entry is marked deleted - a descriptor that stays open would stay in the kernel\'s set, be reported in every iteration and be refused when added again',
+    'R14': 'a signal callback may delete its own registration: the delivery being dispatched is noted, qb_loop_signal_del detaches it (clears its cloned_from), and after the callback the registration is dereferenced only where it is still attached',
 }
-FLOORS = {'R1': 6, 'R2': 6, 'R3': 12, 'R4': 9, 'R5': 3, 'R6': 7, 'R7': 1, 'R8': 2, 'R9': 1, 'R10': 1, 'R11': 2, 'R12': 1}
+FLOORS = {'R1': 6, 'R2': 6, 'R3': 12, 'R4': 9, 'R5': 3, 'R6': 7, 'R7': 1, 'R8': 2, 'R9': 1, 'R10': 1, 'R11': 2, 'R12': 1, 'R13': 1, 'R14': 3}
 
 
 def run(ctx):
@@ -46,6 +48,8 @@ def run(ctx):
     r10(ctx)
     r11(ctx, st)
     r12(ctx)
+    r13(ctx, st)
+    r14(ctx)
     todo_accounting(ctx, 'R1')
 
 
@@ -644,3 +648,78 @@ def todo_accounting(ctx, rule):
                   'hides one undispatched item from qb_loop_run, which then sleeps on it' % (g.name, sorted(heads)))
     if n == 0:
         raise AnalysisBroken('no list scan applies qb_loop_level_item_del')
+
+
+def r13(ctx, st):
+    prog = ctx.prog
+    f = prog.fn('_poll_dispatch_and_take_back_')
+    cb = [ev for ev in f.events() if ev.kind == 'STORE' and ev.rhs is not None and callee_of(unwrap(ev.rhs)) == 'qb_poll_entry::poll_dispatch_fn']
+    if len(cb) != 1:
+        raise AnalysisBroken('_poll_dispatch_and_take_back_: callback result stores = %d' % len(cb))
+    resv = estr(cb[0].lhs)
+    DEL = st['QB_POLL_ENTRY_DELETED']
+    marks = [ev for ev in f.events('CALL') if ev.callee == '_poll_entry_mark_deleted_'] + \
+            [ev for ev in f.events('STORE') if last_field(ev.lhs) == ('qb_poll_entry', 'state') and cval(unwrap(ev.rhs)) == DEL]
+    if not marks:
+        raise AnalysisBroken('_poll_dispatch_and_take_back_: the entry is never marked deleted')
+
+    def is_drvdel(ev):
+        return ev.kind == 'CALL' and (ev.callee or '').endswith('::del') and 'driver' in estr((ev.d.get('e') or {}).get('ce') or {})
+
+    def already_deleted(fb, t, lab):
+        # do not follow the edge on which the callback is known to have deleted the entry itself
+        if fb.cond is None or lab not in (True, False):
+            return True
+        return not any(last_field(a.l) == ('qb_poll_entry', 'state') and a.op == '==' and a.rc == DEL for a in atoms_of(fb.cond, lab))
+    bad = False
+    found = False
+    for b in f.blocks.values():
+        if b.cond is None:
+            continue
+        for (t, lab) in b.succs:
+            if lab in (True, False) and any(a.ls == resv and a.op == '<' and a.rc == 0 for a in atoms_of(b.cond, lab)):
+                found = True
+                hits, _e, _n = f.search(('edge', b.id, t), goal=lambda ev: any(ev is m for m in marks), stop=is_drvdel, edge_filter=already_deleted)
+                bad = bad or bool(hits)
+    if not found:
+        raise AnalysisBroken('_poll_dispatch_and_take_back_: negative-result edge not found')
+    ctx.check('R13', 'negative-return-leaves-the-driver', not bad, marks[0], 'the driver is told before the entry is marked deleted',
+              'a descriptor whose callback returns negative is only marked deleted: it stays in the kernel\'s set - if it also stays open, adding it again is refused '
+              '(EEXIST), qb_loop_poll_del says EBADF and every iteration sleeps 100 ms on an event for an entry it no longer has')
+
+
+def r14(ctx):
+    prog = ctx.prog
+    f = prog.fn('_signal_dispatch_and_take_back_')
+    cbs = [ev for ev in f.events() if (ev.kind == 'STORE' and ev.rhs is not None and callee_of(unwrap(ev.rhs)) == 'qb_loop_sig::dispatch_fn') or
+           (ev.kind == 'CALL' and ev.callee == 'qb_loop_sig::dispatch_fn')]
+    if not cbs:
+        raise AnalysisBroken('_signal_dispatch_and_take_back_: callback not found')
+    cb = cbs[-1]
+    # (a) the registration is dereferenced after the callback only where cloned_from was seen non-NULL
+    derefs = []
+    for ev in f.events():
+        if not f.may_follow(cb, ev) or ev is cb:
+            continue
+        for r_ in (ev.d.get('e'), ev.d.get('rhs')) + tuple(ev.args if ev.kind == 'CALL' else ()):
+            for nn in walk(r_ or {}):
+                if nn.get('k') == 'mem' and nn.get('arrow') and last_field(nn.get('b')) == ('qb_loop_sig', 'cloned_from'):
+                    derefs.append(ev)
+    ok = all(any(last_field(a.l) == ('qb_loop_sig', 'cloned_from') and a.op == '!=' and a.rc == 0 for (a, _e) in f.guards(ev)) for ev in derefs)
+    ctx.check('R14', 'registration-used-only-while-attached', ok, derefs[0] if derefs else cb, 'after the callback cloned_from is dereferenced only where it is non-NULL',
+              'after the signal callback returned non-zero the loop deletes the registration through sig->cloned_from without knowing whether the callback has deleted '
+              '(freed) it itself: use after free, and if the block was reused by a new registration that one is removed')
+    # (b) the delivery is noted around the callback
+    noted = [ev for ev in f.events('STORE') if unwrap(ev.rhs).get('k') == 'var' and unwrap(ev.rhs)['n'] == f.params[0]['n'] or
+             (ev.kind == 'STORE' and estr(unwrap(ev.rhs)) in {estr(unwrap(x.lhs)) for x in f.events('STORE') if unwrap(x.rhs).get('k') == 'cast' or True} and False)]
+    noted = [ev for ev in f.events('STORE') if f.ev_dominates(ev, cb) and unwrap(ev.lhs).get('k') in ('mem', 'var') and unwrap(ev.lhs).get('sc') != 'l' and
+             any(nn.get('k') == 'var' and nn.get('sc') in ('l', 'p') for nn in walk(ev.rhs)) and cval(unwrap(ev.rhs)) is None]
+    ctx.check('R14', 'delivery-noted-during-callback', bool(noted), cb, 'the delivery being dispatched is recorded before the callback runs',
+              'the delivery being dispatched is on no list and is recorded nowhere: qb_loop_signal_del called from the callback cannot detach it')
+    # (c) signal_del detaches it
+    d = prog.fn('qb_loop_signal_del')
+    det = [ev for ev in d.events('STORE') if last_field(ev.lhs) == ('qb_loop_sig', 'cloned_from') and cval(unwrap(ev.rhs)) == 0]
+    fr = [ev for ev in d.calls('free') if estr(unwrap(ev.args[0])) in {estr(unwrap(x.lhs)) for x in d.events('STORE')} | {'sig'}]
+    ctx.check('R14', 'signal_del-detaches-the-running-delivery', bool(det), det[0] if det else d,
+              'qb_loop_signal_del clears cloned_from of the delivery whose callback is running',
+              'qb_loop_signal_del frees the registration without detaching the delivery that is being dispatched')
